@@ -694,12 +694,12 @@ fn ade_oracle(rs: &RS, recs: &[ARec]) -> Result<(), String> {
 }
 
 // ---- one case --------------------------------------------------------------------------------
-struct Obs {
+pub(crate) struct Obs {
     /// canonical trees of cobertura plain / pretty, and of ade; "panic" when the writer panicked
-    cob: [String; 2],
-    ade: String,
+    pub(crate) cob: [String; 2],
+    pub(crate) ade: String,
     /// (format, finding, what)
-    oracle: Vec<(String, Option<&'static str>, String)>,
+    pub(crate) oracle: Vec<(String, Option<&'static str>, String)>,
 }
 
 fn observe(rs: &RS, src: Option<&str>, out: &Path) -> Obs {
@@ -775,7 +775,7 @@ fn requests(rs: &RS, src: Option<&str>) -> [String; 2] {
 }
 
 /// which of the three outputs differ from the model (one driver call)
-fn differs(rs: &RS, src: Option<&str>, workdir: &Path) -> (Obs, Vec<&'static str>) {
+pub(crate) fn differs(rs: &RS, src: Option<&str>, workdir: &Path) -> (Obs, Vec<&'static str>) {
     let o = observe(rs, src, &workdir.join("cobade_out"));
     let ans = run_model(&requests(rs, src), workdir, "c03cobade1");
     let mut v = vec![];
